@@ -128,6 +128,20 @@ def make_files(ck):
         if k == 4:
             out = [("N" + l[2:] if l.startswith(" " + sense + " " + name) else l) for l in out]     # the chosen row becomes a second N row
         return "\n".join(out)
+    # ---- the error paths of the MPS reader, by the rejection reasons of its model (IO/MpsRead.mreason): one file per reason, the reader's
+    #      quirk probes, and section-level mutants of rendered files (keywords, markers, SOS blocks, REFROW / OBJNAME, set names, '$', indentation)
+    for reason, t in sorted(G.mps_reason_files().items()):
+        add("mps-reason", "MPS", t)
+        add("mps-reason", "MPS", t[:-1])                    # the same without the final newline
+        add("mps-reason", "MPS", t.replace("ENDATA\n", ""))  # ... and without ENDATA
+    for nm, t in G.mps_accept_probes():
+        add("mps-probe", "MPS", t)
+    for i in range(n // 3):
+        K, spec = G.gen_known_mps(rng, big=False)
+        t, fl = G.render_mps(rng, K, spec, dollar=(i % 4 == 0))
+        for _ in range(rng.choice([1, 1, 2, 3])):
+            t = G.mutate_tokens_mps(rng, t)
+        add("mps-section-mutation", "MPS", t)
     for i in range(n):
         fmt = ("LP", "MPS", "LP", "MPS", "BAS")[i % 5]
         if fmt == "MPS" and i % 2 == 1:
@@ -238,6 +252,41 @@ def main():
         op = ("TRYBASIS h0 f%s" % ext) if fmt == "BAS" else ("TRYREAD f%s %s" % (ext, fmt))
         ck.violation("crash_%s_%d.txt" % (kind, hist["CRASH " + kind]), "%s\nPUT f%s %s\n%s\n# %s\n" % (load_block(0, BAS_PROBLEM), ext, enc(data), op, what),
                      "reading a %s file (%s, %d bytes) as %s: %s" % (label, ext or "plain", len(data), fmt, what), match=dict(kind=kind))
+    # ---- outcome class of the MPS reader model on the files of the reader-model families: PROB <-> MOk, FAIL <-> a rejection reason;
+    #      which rejection reasons of the model were visited under the sanitizers
+    rc_, out_, err_ = run_io("CASE p\nNUMF 1/0\nNUMF /1\n")
+    pl = [x.split() for x in out_.splitlines() if x.startswith("NUM ")]
+    variant = 0 if (len(pl) == 2 and pl[0][1] == "CRASH") else 1
+    mq, mfiles = ["M " + M], {}
+    for i, (f, t) in enumerate(results):
+        label, fmt, data, ext = f
+        if label in ("mps-reason", "mps-probe", "mps-section-mutation") and t[1] in ("PROB", "FAIL") and b"\x00" not in data:
+            mfiles["r%d" % i] = (f, t)
+            mq.append("Q r%d mpsread %d %s\nNONE" % (i, variant, enc(data)))
+    mans = run_model_par("drv_io", mq) if len(mq) > 1 else {}
+    reasons, nclass, classbad = {}, 0, []
+    for qid, (f, t) in mfiles.items():
+        a = mans.get(qid)
+        if not a:
+            continue
+        nclass += 1
+        if a[0].startswith("ERR:"):
+            reasons[a[0][4:]] = reasons.get(a[0][4:], 0) + 1
+        model_ok = a[0] == "OK"
+        if a[0] in ("FLT", "FUEL") or model_ok != (t[1] == "PROB"):
+            classbad.append((f, t, a))
+    all_reasons = sorted(G.mps_reason_files())
+    ck.cov["mps_reader_model_outcome_classes"] = dict(files=nclass, disagreements=len(classbad), model_rejection_reasons_exercised=reasons,
+                                                      reasons_not_exercised=[r for r in all_reasons if r not in reasons])
+    for (f, t, a) in classbad[:3]:
+        label, fmt, data, ext = f
+        ck.violation("mpsclass_%d.txt" % len(ck.violations), "PUT f %s\nTRYREAD f MPS\n# model: %s\n# reader: %s\n" % (enc(data), a, " ".join(t[1:3])),
+                     "outcome class of the MPS reader (%s) differs from its model IO/MpsRead.read_mps_res (%s) on a %s file" % (t[1], a[0], label),
+                     match=dict(kind="corr-mpsread-class"))
+    missing = [r for r in all_reasons if r not in reasons]
+    if missing:
+        ck.violation("reasons.txt", "\n".join(missing), "rejection reasons of the MPS reader model that no file of this run reached: %s" % missing, no_input=True,
+                     match=dict(kind="reasons-not-exercised"))
     if not pr["ok"]:
         ck.violation("proof.txt", pr["log"], "proof obligation(s) of Properties_C11.v no longer check: %s" % pr["failed"], no_input=not ck.violations)
     ck.cov["outcomes"] = hist
@@ -251,9 +300,13 @@ def main():
                       "format flag, gzip/bzip2 variants incl. truncated and damaged streams and plain text under a compressed name; each read in a forked child of the "
                       "ASan+UBSan build with a 10 s watchdog (60 s alone when it fired under load) through mpq_QSget_prob with an error memory / mpq_QSread_basis + "
                       "mpq_QSread_and_load_basis; a returned problem is written (LP, MPS), solved (QSexact_solver) and freed in the same child; files whose exponents "
-                      "exceed 4 digits are dropped (out of scope); non-trivial = every file; distinct by content")
+                      "exceed 4 digits are dropped (out of scope); non-trivial = every file; distinct by content"
+                      "; MPS reader by its model: one file per rejection reason of IO/MpsRead.mreason (40, each also without final newline and without ENDATA), 32 probes of "
+                      "reader quirks, section-level mutants of rendered files; for these the outcome class of the reader (problem / clean failure) must equal the model's "
+                      "and every rejection reason of the model must be reached")
     ck.cov["not_covered"] = ("memory safety of the readers is explored (sanitizers), not proved: no byte-level model of the 128 KiB line/field buffers; the compression "
-                             "libraries are taken as given; proofs cover the number scanner and the field splitter only")
+                             "libraries are taken as given; proofs cover the number scanner, the field splitter and totality (termination of the modelled control flow) of the LP and MPS reader models "
+                             "(C11_lp_reader_total, C11_mps_reader_total); the models have no buffers, symbol tables or error-message paths")
     ck.assumptions = ["ASan+UBSan detect the invalid accesses that occur", "harness h_io.c (fork, watchdog)", "Coq kernel for the primitive-level theorems"]
     cleanup_scratch()
     ck.finish(trusted_base=["coqc 8.16.1 kernel", "gcc -fsanitize=address,undefined", "harness/h_io.c + checks/io_common.py + checks/io_gen.py + checks/C11.py"])
